@@ -192,6 +192,8 @@ def _st(it, p, off, v): it.store(Ptr(p.obj, p.off + off), v, 8)
 def _isnull(p): return p == NULL or p == 0
 def m_rb_insert(it, a):
     left, x, p, hdr = a
+    if is_sym(left):
+        left = 1 if it.branch(left if z3.is_bool(left) else left != 0) else 0
     _st(it, x, 8, p); _st(it, x, 16, NULL); _st(it, x, 24, NULL); it.store(x, 1, 4)
     if left & 1:
         _st(it, p, 16, x)
